@@ -16,7 +16,7 @@ import driver_opt as D
 from common import ModelErr
 
 PROP = "C15"
-CLAIMED = False
+CLAIMED = True
 ENGINE = "Driver"
 DESIGN_REF = "DESIGN.md §5.9"
 TECHNIQUE = (
@@ -480,7 +480,7 @@ def correspond(ctx, model):
                 ctx.count("corpus cases")
     # 2. timer histories (quick: <=12 calls; thorough: <=200)
     max_ops = MAX_OPS_THOROUGH if ctx.thorough else MAX_OPS_QUICK
-    for i in range(ctx.n(400, 3000)):
+    for i in range(ctx.n(1500, 6000)):
         mo = max_ops if (not ctx.thorough or i % 4 == 0) else 30
         cfg, calls = G.gen_timer_case(ctx.rng, mo)
         check_timer(ctx, model, {"kind": "timer", "cfg": cfg, "calls": calls})
@@ -489,11 +489,11 @@ def correspond(ctx, model):
     check_finite(ctx, model)
     check_transpose(ctx, model)
     # 4. solve histories, every class in turn
-    nsess = ctx.n(70, 500)
+    nsess = ctx.n(140, 700)
     for i in range(nsess):
         cls = D.CLASSES[i % len(D.CLASSES)]
         if ctx.thorough:
-            mo = MAX_OPS_THOROUGH if i % 25 == 0 else 40 if i % 5 == 0 else MAX_OPS_QUICK
+            mo = MAX_OPS_THOROUGH if i % 10 == 0 else 40 if i % 5 == 0 else MAX_OPS_QUICK
         else:
             mo = MAX_OPS_QUICK
         check_session(ctx, model, gen_session(ctx, cls=cls, max_ops=mo))
